@@ -99,6 +99,9 @@ def oracle (tape : Option Int) : Oracle := fun name args =>
   match key, args with
   | "big.Int.SetBytes", [.arr b] => [.int (Int.ofNat (bytesToNat b))]
   | "big.Int.Bytes", [.int n] => [.arr (natToBytes n.toNat)]
+  | "big.Int.FillBytes", [.int n, .arr buf] =>
+    let bs := natToBytes n.toNat
+    [.arr (List.replicate (buf.length - bs.length) (.int 0) ++ bs)]
   | "big.Int.Add", [.int a, .int b] => [.int (a + b)]
   | "big.Int.Sub", [.int a, .int b] => [.int (a - b)]
   | "big.Int.Mul", [.int a, .int b] => [.int (a * b)]
